@@ -130,6 +130,35 @@ kf("KF-add-loop-guard-forward-chain", ["C06"],
    "LoopIR_scheduling.DoAddLoop",
    {"level": "chain", "via_add_loop_guard": True},
    "seed dep/scalar_between: add_loop(`acc: f32`, 'r', 2, guard=True); simplify; forward(cursor of `acc: f32` in the seed)")
+kf("KF-stage-mem-else-cond", ["C01", "C04"],
+   "stage_mem used the un-negated condition for accesses in an else-branch when computing the staged window",
+   "LoopIR_scheduling.DoStageMem / new_eff (else-branch context)",
+   {"op": ["stage_mem"], "where": RE(r"^else-branch$"), "kind": ["value-mismatch", "oob", "uninit"]},
+   "seed guard/else2: stage_mem of a block in the else-branch", status="fixed", commit="abe478cb")
+kf("KF-par-nested-unchecked", ["C09"],
+   "ParallelAnalysis.map_s never recursed, so par loops nested inside other statements were not checked for races",
+   "backend/parallel_analysis.py", {"oracle": "par", "kind": ["race"], "position": ["in-seq", "in-if", "in-par", "seq-in-par"]},
+   "a racy `par` loop inside a `seq` loop compiled", status="fixed", commit="83b04d9f")
+kf("KF-window-write-unchecked", ["C03"],
+   "writes and reductions through windows were not bounds-checked by the front end",
+   "frontend/boundscheck.py", {"kind": ["oob_base"], "family": ["FE1"], "via": ["window", "wow"]},
+   "w = x[0:n]; w[n] = 1.0 was accepted", status="fixed", commit="da763763")
+kf("KF-static-scalar-decl", ["C15"],
+   "DRAM_STATIC / DRAM_STACK scalars were declared as `float t[];`",
+   "core/memory.py (StaticMemory / DRAM_STACK alloc of rank-0 buffers)", {"kind": ["invalid-c"], "err": RE(r"array size missing")},
+   "t: f32 @ DRAM_STATIC", status="fixed", commit="4f525415")
+kf("KF-c-mod-negative", ["C02"],
+   "C `%` was emitted for operands that may be negative (Exo's % is the floor modulo)",
+   "backend/LoopIR_compiler.py", {"kind": ["value-mismatch"], "uses_mod": True},
+   "x[(k - 1) % 3] with k = -1", status="fixed", commit="4b2bce40")
+kf("KF-free-before-window-use", ["C08"],
+   "a buffer was freed after its last syntactic use although a window onto it was used later (use after free)",
+   "backend/mem_analysis.py", {"kind": ["crash"], "san": RE(r"heap-use-after-free"), "family": ["f10w"]},
+   "program f10w (window of a local allocation used after the last use of the base)", status="fixed", commit="6a075082")
+kf("KF-fuse-lower-bounds", ["C01"],
+   "fuse compared only the upper bounds of the two loops",
+   "LoopIR_scheduling.DoFuseLoop", {"op": ["fuse"], "kind": ["value-mismatch", "oob"], "seed": "loops/fuse"},
+   "fuse(for i in seq(0, n), for i in seq(1, n))", status="fixed", commit="91875a5f")
 kf("KF-join-loops-prefix", ["C01"],
    "join_loops accepted loops whose bodies are [s1,s2] and [s1] (zip-based comparison)",
    "LoopIR.LoopIR_Compare.match_stmts",
